@@ -58,6 +58,11 @@ fn tr_str(t: TransportType) -> &'static str {
     }
 }
 
+thread_local! {
+    /// harness-side configuration of the agent under test for the current case line
+    static REMOTE_ADDR: std::cell::RefCell<Option<String>> = const { std::cell::RefCell::new(None) };
+}
+
 pub struct AgentRun {
     pub agent: StunAgent,
     pub base: Instant,
@@ -83,7 +88,13 @@ impl AgentRun {
         } else {
             future
         };
-        AgentRun { agent: StunAgent::builder(transport, addr_of(local)).build(), base }
+        // `ra=<addr>` on the case line (passed through the thread-local below) configures the builder's
+        // remote_addr: it must not redirect sends or re-attribute received messages
+        let mut b = StunAgent::builder(transport, addr_of(local));
+        if let Some(ra) = REMOTE_ADDR.with(|r| r.borrow().clone()) {
+            b = b.remote_addr(addr_of(&ra));
+        }
+        AgentRun { agent: b.build(), base }
     }
 
     fn at(&self, ns: u64) -> Instant {
@@ -234,6 +245,12 @@ impl AgentRun {
                 self.agent.set_remote_credentials(key_creds(p[1]));
                 "ok".into()
             }
+            "L" => {
+                // local credentials: what the agent's own requests are sealed with; they must play no
+                // part in accepting responses
+                self.agent.set_local_credentials(key_creds(p[1]));
+                "ok".into()
+            }
             o => panic!("bad op {o}"),
         };
         format!("{}|{}", reply, self.snapshot())
@@ -247,8 +264,12 @@ pub fn exec(kv: &Kv) -> String {
     let shift: u64 = kv.get("shift").parse().unwrap_or(0);
     let mode = kv.get("mode").to_string();
     let past = mode == "past";
+    let ra: Option<String> = if kv.get("ra").is_empty() { None } else { Some(kv.get("ra").to_string()) };
+    let ra2 = ra.clone();
     let run_plain = move || -> String {
+        REMOTE_ADDR.with(|r| *r.borrow_mut() = ra2.clone());
         let mut r = AgentRun::new_based(&tr, &local, shift, past);
+        REMOTE_ADDR.with(|r| *r.borrow_mut() = None);
         let mut out = vec![];
         for op in &ops {
             out.push(r.apply(op));
@@ -274,7 +295,9 @@ pub fn exec(kv: &Kv) -> String {
         "interleaved" => {
             // an unrelated agent is driven call by call between the calls of the agent under test
             let ops2: Vec<String> = split_list(kv.get("ops"), ';').iter().map(|s| s.to_string()).collect();
+            REMOTE_ADDR.with(|x| *x.borrow_mut() = ra.clone());
             let mut r = AgentRun::new(kv.get("tr"), kv.get("local"), shift);
+            REMOTE_ADDR.with(|x| *x.borrow_mut() = None);
             let mut other = AgentRun::new("udp", ADDRS[3], 12345);
             let mut out = vec![];
             for (i, op) in ops2.iter().enumerate() {
@@ -336,7 +359,12 @@ impl<'a> Gen<'a> {
             (9, Some(w)) => (self.now + w) / 2,
             _ => self.now + self.rng.below(1500) * ms,
         };
-        // instants handed to the agent never go backwards
+        // instants handed to the agent mostly do not go backwards; now and then one lies a little before
+        // the previous call's (nothing in the API forbids it, and no call may leak its instant into another)
+        if self.rng.chance(1, 25) {
+            let back = self.now.saturating_sub(self.rng.below(700) * ms);
+            return back;
+        }
         let t = t.max(self.now);
         self.now = t;
         t
@@ -355,7 +383,12 @@ fn integ(rng: &mut Rng) -> String {
 /// random histories; `timing` biases towards polls and reconfiguration (C06)
 pub fn history(rng: &mut Rng, len: usize, tr: &str, timing: bool) -> String {
     let local = "4:7f000001:1000";
-    let mut g = Gen { rng, run: AgentRun::new(tr, local, 0), ops: vec![], now: 0, last_wait: None, remote_key: None, sent_keys: vec![] };
+    // one history in four runs on an agent whose builder was given a remote address
+    let ra: Option<&str> = if rng.chance(1, 4) { Some(ADDRS[rng.below(3) as usize]) } else { None };
+    REMOTE_ADDR.with(|r| *r.borrow_mut() = ra.map(|s| s.to_string()));
+    let run = AgentRun::new(tr, local, 0);
+    REMOTE_ADDR.with(|r| *r.borrow_mut() = None);
+    let mut g = Gen { rng, run, ops: vec![], now: 0, last_wait: None, remote_key: None, sent_keys: vec![] };
     for _ in 0..len {
         let c = g.rng.below(if timing { 14 } else { 20 });
         match c {
@@ -398,9 +431,14 @@ pub fn history(rng: &mut Rng, len: usize, tr: &str, timing: bool) -> String {
                 g.push(format!("P/{}", now));
             }
             12 => {
-                let k = g.rng.below(4);
-                g.remote_key = Some(k);
-                g.push(format!("K/{}", k));
+                if g.rng.chance(1, 3) {
+                    let k = g.rng.below(4);
+                    g.push(format!("L/{}", k));
+                } else {
+                    let k = g.rng.below(4);
+                    g.remote_key = Some(k);
+                    g.push(format!("K/{}", k));
+                }
             }
             _ => {
                 // an incoming message
@@ -427,7 +465,10 @@ pub fn history(rng: &mut Rng, len: usize, tr: &str, timing: bool) -> String {
         g.now = now;
         g.push(format!("P/{}", now));
     }
-    format!("ag tr={} local={} ops={}", tr, local, g.ops.join(";"))
+    match ra {
+        Some(a) => format!("ag tr={} local={} ra={} ops={}", tr, local, a, g.ops.join(";")),
+        None => format!("ag tr={} local={} ops={}", tr, local, g.ops.join(";")),
+    }
 }
 
 /// C06: one request, a configuration from the grid, polled on a schedule placed around its deadlines
@@ -511,11 +552,11 @@ pub fn gen(which: &str, rng: &mut Rng, count: usize, thorough: bool, out: &mut V
             }
         }
         "ag.exh" => {
-            // EXHAUSTIVE: every history of exactly `depth` calls over a 16-letter alphabet for two
+            // EXHAUSTIVE: every history of exactly `depth` calls over a 17-letter alphabet for two
             // transaction ids (observations are compared after every call, so shorter histories are
             // covered as prefixes); instants follow the agent's own answers
             let depth: u32 = if thorough { 5 } else { 4 };
-            let letters = 16u64;
+            let letters = 17u64;
             let total = letters.pow(depth);
             let mut idx = _part;
             while idx < total {
@@ -550,6 +591,7 @@ pub fn gen(which: &str, rng: &mut Rng, count: usize, thorough: bool, out: &mut V
                             12 => format!("R/{:x}", a),
                             13 => "K/0".to_string(),
                             14 => format!("H/ok/{:x}/n/3/{}", a, ADDRS[0]),
+                            15 => "L/0".to_string(),
                             _ => format!("F/{:x}/1000/1/2000", a),
                         };
                         g.push(op);
